@@ -63,6 +63,8 @@ func main() {
 			genEnum(os.Args[2], n, os.Args[5])
 		case "types":
 			genTypes(os.Args[5])
+		case "tproc":
+			genTproc(seed, n, os.Args[5])
 		default:
 			gen(os.Args[2], seed, n, os.Args[5])
 		}
@@ -72,7 +74,7 @@ func main() {
 		switch os.Args[2] {
 		case "loop":
 			oracleLoop(os.Args[3], os.Args[4])
-		case "proc", "dproc":
+		case "proc", "dproc", "tproc":
 			oracleProc(os.Args[2], os.Args[3], os.Args[4])
 		case "recv":
 			oracleRecv(os.Args[3], os.Args[4])
@@ -239,7 +241,7 @@ func execOps(stream, in, outp string) {
 			out.Line(dl.apply(f))
 		case "loop":
 			out.Line(l.apply(f))
-		case "proc", "dproc":
+		case "proc", "dproc", "tproc":
 			out.Line(pr.apply(f))
 		case "recv":
 			out.Line(applyRecv(f))
